@@ -17,10 +17,11 @@ var (
 	protoPool    = []string{"PROTOCOL_CCTP", "PROTOCOL_HYPERLANE", "PROTOCOL_INTERNAL", "PROTOCOL_IBC"}
 	badProtoPool = []string{"PROTOCOL_UNSUPPORTED", "PROTOCOL_BOGUS", "", "2", "protocol_cctp"}
 	cpPool       = map[string][]string{
-		"PROTOCOL_CCTP":      {"0", "1", "2", "3", "5", "9"},
-		"PROTOCOL_HYPERLANE": {"1", "2", "7", "3"},
+		// the domains of the environment several times over, and the boundaries of the 32-bit range
+		"PROTOCOL_CCTP":      {"0", "1", "2", "3", "5", "9", "0", "1", "2", "3", "5", "2147483647", "2147483648", "4294967295"},
+		"PROTOCOL_HYPERLANE": {"1", "2", "7", "3", "1", "2", "7", "2147483648", "4294967295"},
 		"PROTOCOL_INTERNAL":  {"noble", "x"},
-		"PROTOCOL_IBC":       {"channel-0", "channel-1"},
+		"PROTOCOL_IBC":       {"channel-0", "channel-1", "channel-0", "channel-1", "channel-4294967296", "channel-18446744073709551615"},
 	}
 	// Clearly invalid counterparty ids for every protocol but INTERNAL (which accepts any
 	// non-empty string up to the length limit).
@@ -138,7 +139,7 @@ type EnvOpt struct {
 }
 
 var envKindAll = []string{"deposit", "deposit", "deposit", "reescrow", "reescrow", "ftf_pause", "ftf_unpause", "blacklist", "unblacklist", "burn_limit",
-	"cctp_pause_burn", "cctp_unpause_burn", "cctp_pause_msgs", "cctp_unpause_msgs", "hyp_unenroll", "hyp_enroll", "next_block", "next_block", "send_disable", "send_enable"}
+	"cctp_pause_burn", "cctp_unpause_burn", "cctp_pause_msgs", "cctp_unpause_msgs", "hyp_unenroll", "hyp_enroll", "next_block", "next_block", "send_disable", "send_enable", "upgrade"}
 
 func GenEnv(t *rapid.T, opt EnvOpt) Env {
 	kinds := opt.Kinds
@@ -172,6 +173,8 @@ func GenEnv(t *rapid.T, opt EnvOpt) Env {
 		if chance(t, "env/target/orbiter", 15) {
 			e.Target = world.OrbiterAddr.String()
 		}
+	case "upgrade":
+		e.Amount = "1"
 	case "send_disable", "send_enable":
 		e.Denom = pick(t, "env/send/denom", []string{world.Uusdc, world.Ufoo, world.Gamm})
 	case "next_block":
